@@ -151,7 +151,7 @@ theorem no_start_after_signal (cfg : Cfg) (s s' : State) (h : Reachable cfg s) (
     No connection is ever first polled after `GracefulShutdown`'s signal — the situation in which hyper-util
     drops it without reading the request waiting on its socket; and when a worker sends the signal every
     connection it has started has already been polled. -/
-theorem started_polled_before_signal (cfg : Cfg) (hy : cfg.yieldBeforeSignal = true) (s : State)
+theorem started_polled_before_signal (cfg : Cfg) (hy : cfg.yieldPolicy = .always) (s : State)
     (h : Reachable cfg s) :
     (∀ c, (s.c c).cancelled = false ∧ (s.c c).phase ≠ .doomed) ∧
       ∀ w, (s.w w).signalled = true → ∀ c, c ∈ (s.w w).started → (s.c c).phase ≠ .spawned := by
@@ -164,7 +164,7 @@ theorem started_polled_before_signal (cfg : Cfg) (hy : cfg.yieldBeforeSignal = t
   rw [hw] at this
   simp [this] at hsig
 
-example : cfg1.yieldBeforeSignal = true ∧ (run cfg1 init (demoGraceful.take 20)).map
+example : cfg1.yieldPolicy = .always ∧ (run cfg1 init (demoGraceful.take 20)).map
     (fun s => (s.w 0).signalled) = some true := by decide
 
 /-- **Finding (the code before the `fix:` commit).** Without the yield the faithful model violates the
@@ -178,7 +178,7 @@ def witnessNoYield : List Event :=
    .cEnd 1 true, .cEnd 0 true, .wWaitEnd 0 .complete, .wNotify 0, .accWaitEnd .complete, .accNotify]
 
 theorem queued_connection_cancelled_without_yield :
-    (run { n := 1, yieldBeforeSignal := false } init witnessNoYield).map
+    (run { n := 1, yieldPolicy := .never } init witnessNoYield).map
       (fun s => decide ((s.c 1).cancelled = true ∧ (s.c 1).begun = 0 ∧ 1 ∈ (s.w 0).dispatched ∧
         s.acc.resolved = true ∧ s.acc.timedOut = false ∧ (s.w 0).timedOut = false)) = some true := by
   decide
@@ -186,6 +186,58 @@ theorem queued_connection_cancelled_without_yield :
 /-- ... and with the yield that very schedule is impossible. -/
 theorem witness_impossible_with_yield : run { n := 1 } init witnessNoYield = none := by
   decide
+
+/-- **Refuted variant: yield only if the drain loop found something** (`YieldPolicy.ifDrained`, "no need to
+    go through the scheduler if the queue was empty"). The queued case above is then covered ... -/
+theorem conditional_yield_covers_queued :
+    run { n := 1, yieldPolicy := .ifDrained } init witnessNoYield = none := by
+  decide
+
+/-- ... but not a connection that the REGULAR loop took off the queue and spawned (`wRecv`) and that has
+    not been polled yet when the Graceful command reaches the worker with an EMPTY queue: nothing is
+    drained, the worker does not yield, signals, and the connection — dispatched, and its request on the
+    socket, BEFORE the shutdown call — is first polled after the signal: cancelled unread, handler never
+    run, while the shutdown resolves gracefully with no timeout anywhere. (Reached deterministically on
+    the real code by parking the worker at the `after_spawn` / `after_recv` failpoint: corpus/C16.) -/
+def witnessSpawnedUnpolled : List Event :=
+  [.accept 0, .dispatch 0 0 .ok, .wRecv 0 0,
+   .call .graceful, .cmdSent, .accShutdown .graceful, .accSend 0, .accWaitStart,
+   .wShutdown 0 .graceful, .wClose 0, .wDrainEnd 0, .wSignal 0, .cPoll 0,
+   .cEnd 0 true, .wWaitEnd 0 .complete, .wNotify 0, .accWaitEnd .complete, .accNotify]
+
+theorem spawned_connection_cancelled_with_conditional_yield :
+    (run { n := 1, yieldPolicy := .ifDrained } init witnessSpawnedUnpolled).map
+      (fun s => decide ((s.c 0).cancelled = true ∧ (s.c 0).begun = 0 ∧ 0 ∈ (s.w 0).dispatched ∧
+        (s.w 0).drainedAny = false ∧
+        s.acc.resolved = true ∧ s.acc.timedOut = false ∧ (s.w 0).timedOut = false)) = some true := by
+  decide
+
+/-- The same schedule also breaks the code without any yield, and is impossible with the unconditional one:
+    there the signal has to wait for `cPoll 0`. -/
+theorem witness_spawned_without_yield :
+    (run { n := 1, yieldPolicy := .never } init witnessSpawnedUnpolled).map
+      (fun s => decide ((s.c 0).cancelled = true ∧ (s.c 0).begun = 0)) = some true := by
+  decide
+
+theorem witness_spawned_impossible_with_yield : run { n := 1 } init witnessSpawnedUnpolled = none := by
+  decide
+
+/-- Under EVERY policy: a worker that did yield (`cfg.yields`) when it signalled left no started connection
+    unpolled at that moment — the guard of `wSignal` is exactly the difference between the policies. -/
+theorem signal_after_yield_sees_no_unpolled (cfg : Cfg) (s s' : State) (w : Nat)
+    (hs : step cfg s (.wSignal w) = some s') (hy : cfg.yields (s.w w) = true) :
+    ∀ c, c ∈ (s.w w).started → (s.c c).phase ≠ .spawned := by
+  simp only [step] at hs
+  split at hs
+  · rename_i hg
+    have := hg.2 hy
+    rw [allPhase_iff] at this
+    intro c hc
+    simpa using this c hc
+  · cases hs
+
+example : ∃ s s', step cfg1 s (.wSignal 0) = some s' ∧ cfg1.yields (s.w 0) = true ∧ (s.w 0).started = [0, 1] :=
+  ⟨(run cfg1 init (demoGraceful.take 19)).get (by decide), _, rfl, by decide, by decide⟩
 
 /-! ### 3. When the shutdown future resolves -/
 
@@ -217,7 +269,7 @@ example : (run cfg1 init demoGraceful).map
     when the command arrived — was started, was polled before the signal (never cancelled), and its task
     ran until it was gone. (That hyper answers the request of such a connection in full is the named
     assumption.) -/
-theorem graceful_drain_complete (cfg : Cfg) (hy : cfg.yieldBeforeSignal = true) (s : State)
+theorem graceful_drain_complete (cfg : Cfg) (hy : cfg.yieldPolicy = .always) (s : State)
     (h : Reachable cfg s) (hres : s.acc.resolved = true) (hm : s.acc.mode = some .graceful)
     (hto : s.acc.timedOut = false) (w : Nat) (hw : w < cfg.n) (hwto : (s.w w).timedOut = false) :
     ∀ c, c ∈ (s.w w).dispatched → c ∈ (s.w w).started ∧ (s.c c).phase = .ended ∧ (s.c c).cancelled = false := by
